@@ -12,6 +12,7 @@ import (
 	"errors"
 	"fmt"
 	"testing"
+	"time"
 
 	"github.com/slackhq/nebula/cert"
 	"github.com/slackhq/nebula/header"
@@ -38,7 +39,17 @@ func TestVerif_C12(t *testing.T) {
 		if len(path) == 0 {
 			continue
 		}
-		for _, scaled := range []bool{false, true} {
+		for vi, scaled := range []bool{false, true, pi%2 == 1} {
+			// third variant (every 8th tour): each step is started while another goroutine is inside the window's
+			// critical section (the harness holds ConnectionState.decryptLock, as a reader routine that is checking
+			// an unrelated counter of the same tunnel does); the step has to wait for it, not to be skipped.
+			occupied := vi == 2
+			if occupied && pi%8 > 1 {
+				continue
+			}
+			if occupied {
+				res.Hit("schedule:critical-section-occupied")
+			}
 			// receiver: the initiator's state; sender: the responder's encryption key
 			ci, err := newConnectionStateFromResult(initR)
 			if err != nil {
@@ -87,7 +98,7 @@ func TestVerif_C12(t *testing.T) {
 				for _, ei := range path {
 					acts = append(acts, fmt.Sprintf("%s(%s)", gr.Edges[ei].Act, vStr(gr.Edges[ei].Args[0])))
 				}
-				res.Mismatch(key, what, map[string]any{"path": pi, "step": si, "copies": init, "interleaving": acts, "production_window": scaled})
+				res.Mismatch(key, what, map[string]any{"path": pi, "step": si, "copies": init, "interleaving": acts, "production_window": scaled, "critical_section_occupied_at_each_step": occupied})
 				bad = true
 			}
 			for si, ei := range path {
@@ -118,6 +129,9 @@ func TestVerif_C12(t *testing.T) {
 					if !genuine[g] {
 						pkt[len(pkt)-1] ^= 0x40
 					}
+					if occupied {
+						ci.decryptLock.Lock()
+					}
 					go func() {
 						defer close(r.done)
 						nb := make([]byte, 12)
@@ -127,7 +141,23 @@ func TestVerif_C12(t *testing.T) {
 							r.out, r.err = ci.Decrypt(l, c, pkt, nb)
 						}
 					}()
-					r.arrival = dpAwait(gate, r.done)
+					if occupied {
+						// give the goroutine the time to reach the lock (or, if it does not wait, to run past it)
+						select {
+						case a := <-gate.arrive:
+							res.Hit("occupied:progressed-while-occupied")
+							ci.decryptLock.Unlock()
+							r.arrival = a
+						case <-r.done:
+							res.Hit("occupied:progressed-while-occupied")
+							ci.decryptLock.Unlock()
+						case <-time.After(time.Millisecond):
+							ci.decryptLock.Unlock()
+							r.arrival = dpAwait(gate, r.done)
+						}
+					} else {
+						r.arrival = dpAwait(gate, r.done)
+					}
 					switch {
 					case r.arrival == nil && pcAfter[g] == "checked":
 						// the pre-check refused a copy the specification lets through: no delivery, not a C12 matter
@@ -139,8 +169,19 @@ func TestVerif_C12(t *testing.T) {
 				case "Finish":
 					r := rcvs[g]
 					if r.arrival != nil {
+						if occupied {
+							ci.decryptLock.Lock()
+						}
 						close(r.arrival.release)
 						r.arrival = nil
+						if occupied {
+							select {
+							case <-r.done:
+								res.Hit("occupied:finished-while-occupied")
+							case <-time.After(time.Millisecond):
+							}
+							ci.decryptLock.Unlock()
+						}
 						<-r.done
 					}
 					got := "delivered"
@@ -180,7 +221,7 @@ func TestVerif_C12(t *testing.T) {
 					fail("delivered-twice", fmt.Sprintf("counter %d was acted upon %d times", c, n), len(path))
 				}
 			}
-			res.Case(fmt.Sprintf("%d/%v", pi, scaled))
+			res.Case(fmt.Sprintf("%d/%v/%v", pi, scaled, occupied))
 			res.Traces++
 		}
 	}
